@@ -109,6 +109,11 @@ pub fn kinds() -> Vec<BVal> {
                 Box::new(BVal::Data(RData::B(vec![]))),
             )],
         ),
+        // lists whose element type agrees with what a builtin expects only in part
+        BVal::List(BType::Pair(Box::new(BType::Int), Box::new(BType::Data)), vec![BVal::Pair(Box::new(BVal::Int(1.into())), Box::new(BVal::Data(RData::I(2.into()))))]),
+        BVal::List(BType::Pair(Box::new(BType::Data), Box::new(BType::Int)), vec![BVal::Pair(Box::new(BVal::Data(RData::I(2.into()))), Box::new(BVal::Int(1.into())))]),
+        BVal::List(BType::List(Box::new(BType::Data)), vec![BVal::List(BType::Data, vec![])]),
+        BVal::Pair(Box::new(BVal::Data(RData::I(0.into()))), Box::new(BVal::Int(1.into()))),
         BVal::List(BType::G1, vec![BVal::G1(bvals::g1_generator())]),
         BVal::Pair(Box::new(BVal::Int(0.into())), Box::new(BVal::Bool(true))),
         BVal::Data(RData::I(0.into())),
